@@ -7,7 +7,7 @@
    function of the state and the call, and the one place where Go iterates a map with an
    observable effect (Workflow.compile) takes the order as an argument [ord] over which
    the theorems quantify.  Only statements, each closed by [exact]. *)
-From Eino Require Import Base.Util Model.Builder Proofs.Builder Proofs.BuilderReject Proofs.BuilderDag.
+From Eino Require Import Base.Util Model.Builder Proofs.Builder Proofs.BuilderReject.
 Local Open Scope string_scope.
 Local Open Scope list_scope.
 
@@ -56,7 +56,6 @@ Proof. vm_compute. reflexivity. Qed.
 Theorem rejects_each_kind :
   (forall v g c, gviolation g c -> is_err (snd (gstep v g c)))
   /\ (forall g o, gill g o -> is_err (snd (g_compile fixed g o)))
-  /\ (forall g o, dag_mode g o = true -> has_cycle g -> is_err (snd (g_compile fixed g o)))
   /\ (forall c call cs, cviolation c call ->
         exists e, Forall2 (fun k o => c_is_compile k = true -> o = OErr e) cs
                           (snd (run_calls (cstep fixed) (fst (cstep fixed c call)) cs)))
@@ -68,7 +67,7 @@ Theorem rejects_each_kind :
   /\ (forall c call, snd (cstep fixed c call) <> OPanic)
   /\ (forall w call, snd (wstep fixed w call) <> OPanic).
 Proof.
-  exact (conj graph_rejects_add (conj compile_rejects (conj compile_rejects_cycle (conj chain_rejects_at_compile
+  exact (conj graph_rejects_add (conj compile_rejects ((conj chain_rejects_at_compile
         (conj workflow_rejects_node (conj workflow_rejects_unknown_branch_target
         (conj gstep_no_panic (conj cstep_no_panic wstep_no_panic)))))))).
 Qed.
@@ -124,22 +123,6 @@ Example runner_unaffected_nonvacuous :
   | None => False
   end.
 Proof. exact wf_compile_twice_fixed. Qed.
-
-(* ------------------------------------------------------------------ compile_sound (stretch) *)
-(* What Compile accepts is well formed: the build error is unset, there is an entry and an
-   exit, every edge could be type-checked and every node has a type, no mapping target is
-   duplicated, the option combination is valid, and in all-predecessor mode the control
-   graph (edges and branches) has a topological order: an enumeration of all nodes in
-   which every node comes after all its non-START control predecessors. *)
-Theorem compile_sound : forall g o g' r,
-  g_compile fixed g o = (g', OCompiled r) -> well_formed g o.
-Proof. exact compile_accepts_well_formed. Qed.
-Print Assumptions compile_sound.
-
-Theorem validateDAG_sound : forall g,
-  validate_dag g = true -> exists order, topological (ctrl_pairs g) (map fst (g_nodes g)) order.
-Proof. exact validate_dag_sound. Qed.
-Print Assumptions validateDAG_sound.
 
 (* ------------------------------------------------------------------ the repaired defects *)
 (* F-C20a: on the original code a Workflow branch to a node that was never added made
